@@ -38,7 +38,7 @@ CHECKS.update({
             "note": "1e-12 relative tolerance; exploration probabilities are not tested statistically."},
     "C20": {"category": "exploration", "technique": PBT + " with definitional oracles (HP first-order condition via a hand-written stencil)",
             "text": "Generated series of length 3-2000 in seven shapes and six scales, lambda over ten decades (float, Python int, numpy int): cycle+trend=series, "
-                    "the HP optimality condition, definitions of the three derived filters, finiteness of the 18 moments.",
+                    "the HP optimality condition, definitions of the three derived filters, finiteness of the 18 moments. Integer smoothing parameters, level-plus-ripple series, the summary right after a rejected filter call, and 1000 filter calls from four threads at once (each compared with its single-threaded result).",
             "note": "residual tolerance scales with (1+16*lambda); log filters on positive series only."},
     "C07": {"category": "exploration", "technique": PBT + " differential against independent pure-Python reference implementations of each loss definition",
             "text": "Each built-in loss (all options, filters, weights, ensembles) is compared with a reference written from the "
@@ -75,22 +75,22 @@ CHECKS.update({
             "text": "Round-robin: the i-th batch over the whole life (across calibrate calls and checkpoint restores) comes from "
                     "position i mod n with that batch size; RL: first batch from a Halton bootstrap, later batches a subsequence of "
                     "the agent's choices over the supplied set; constructor accepts exactly one of samplers/scheduler. "
-                    "Rediscovered the constructor validation defect (fixed).",
+                    "Rediscovered the constructor validation defect (fixed). A further sub-check runs two RL calibrations with their own schedulers at the same time in two threads and compares each with its solo run.",
             "note": "RL runs use the real thread under the OS scheduler (interleavings are C10's subject)."},
     "C14": {"category": "exploration", "technique": PBT + " of calibrate() histories with scripted losses against an exact-rational rounding model",
             "text": "Loss scripts concentrated at 0.5*10^-p; batches executed per call, counters, verbose-independence and the restored "
                     "checkpoint are compared with a reference model; a second sub-check lets a user-defined scheduler's update() raise once "
-                    "and applies the same rule to the later calls on that object. Rediscovered both early-stopping defects (fixed).",
+                    "and applies the same rule to the later calls on that object. Rediscovered both early-stopping defects (fixed). The precision may be reassigned between calls, line-ups may contain history-driven samplers and a user scheduler may scribble on what update() hands it.",
             "note": "values within 1e-12 relative of the boundary are excluded (either verdict accepted)."},
     "C18": {"category": "exploration", "technique": PBT + " of calibrate / set_samplers / set_scheduler / checkpoint / read-labels histories",
             "text": "Id table monotonicity and uniqueness after every operation, labels equal to the producing class (class-level "
                     "logger), and names recovered by the plotting helper from the calibrator's own checkpoint equal the live table. "
-                    "Rediscovered the plot-helper TypeError and the non-persisted table (both fixed).",
+                    "Rediscovered the plot-helper TypeError and the non-persisted table (both fixed). Line-ups include a user-defined sampler class nested in another class; a user scheduler that grows its own line-up is re-installed with set_scheduler.",
             "note": "round-robin schedulers only for replacement."},
     "C01": {"category": "exploration", "technique": PBT + " differential: variants of one configuration (n_jobs 1/2/4, verbose, saving folder, constructor seeds) must agree bit for bit",
             "text": "Generated configurations over all nine samplers, both scheduler kinds and the five losses; three variants from "
                     "fresh objects per configuration (one configuration in ten additionally in a fresh interpreter under another hash seed); all five history arrays and the return value are compared byte-wise; an exception is an outcome all variants must share. The RL + "
-                    "saving-folder crash is a listed known finding; everything else must agree.",
+                    "saving-folder crash is a listed known finding; everything else must agree. In an eighth of the round-robin configurations the line-up is replaced mid-way (set_samplers) in every variant and in the twin (run under a case-dependent hash salt); in a sixth, a second calibration is handed the sampler objects already used by the first and compared with one using fresh objects.",
             "note": "determinism of sklearn/xgboost/scipy on this machine is assumed; 3 variants per configuration."},
     "C04": {"category": "exploration", "technique": PBT + " of operation histories (new run in fresh/used folder, calibrate, checkpoint, restore) with a save->restore round-trip oracle over a canonical snapshot",
             "text": "After every operation that writes a checkpoint the folder is restored and a recursive canonical snapshot "
@@ -102,14 +102,14 @@ CHECKS.update({
     "C05": {"category": "exploration", "technique": PBT + "-sampled configurations x exhaustive enumeration of cut patterns, differential against an uninterrupted twin",
             "text": "For every drawn round-robin configuration (all nine samplers, five losses) every one of the 3^(n-1) cut patterns "
                     "(no cut / second calibrate() / checkpoint+restore per boundary) for n <= 4 (quick) or 5 (thorough), and drawn "
-                    "patterns up to n = 8, must reproduce the uninterrupted history and return value byte for byte.",
+                    "patterns up to n = 8, must reproduce the uninterrupted history and return value byte for byte. Configurations may carry a convergence precision (the stopping batch is derived from the uninterrupted run's losses and every cut pattern must execute exactly the prescribed batches), a user loss with memory, or a user scheduler driven by the documented batch_id.",
             "note": "exhaustive over cut patterns per configuration only; configurations are sampled; RL excluded (see assumptions)."},
     "C06": {"category": "fault_enumeration", "technique": "fault injection enumerated completely per generated scenario: process death (fork + os._exit) and exceptions (sys.settrace) at every line event of the real save functions, plus byte-level truncation of the file being written; PBT draws the scenarios",
             "text": "For each drawn (configuration, k, previous checkpoint or none): the real save of both back-ends is killed at every "
                     "statement, every file changed by a statement is additionally cut at every byte (thorough) / 128 offsets (quick), "
                     "and the SQLite save gets an exception at every statement; every resulting folder is restored and must raise or "
                     "equal the previous or the new checkpoint exactly (SQLite exception: must still load). Rediscovered and fixed the "
-                    "SQLite DELETE auto-commit and the JSON multi-file hybrid.",
+                    "SQLite DELETE auto-commit and the JSON multi-file hybrid. JSON back-end also: the complete save that follows every failed one must restore as exactly the new checkpoint; errors are Exception-, BaseException- and OSError-typed; two failed saves in a row are swept as well.",
             "note": "statement-level death + byte truncation; no model of reordered or torn writes below the file API."},
     "C11": {"category": "fault_enumeration", "technique": "fault injection enumerated completely per generated scenario: a marker exception at every invocation index of model, loss and samplers; PBT draws the scenarios; differential against the fault-free twin",
             "text": "For each drawn configuration (round-robin and RL, with/without saving folder, 1-6 batches) every single invocation "
